@@ -19,7 +19,7 @@ pub struct SCase {
 
 fn cmd_s() -> BoxedStrategy<PromptCmd> {
     let nexts = proptest::sample::select(vec!["n", "next", "N", "  next  ", "NEXT", "n ", "\tn"]);
-    let garbage = proptest::sample::select(vec!["", "foo", "print", "print mem", "12", "nn", "nextt", "print reg extra", "mov ax, 5", "print mem 5 ->", "quit now", "?", "print mem 7 : 1048576"]);
+    let garbage = proptest::sample::select(vec!["", "foo", "print", "print mem", "12", "nn", "nextt", "print reg extra", "mov ax, 5", "print mem 5 ->", "quit now", "?", "print mem 7 : 1048576", "print mem 99999999999999999999 -> 5", "print mem 0 : 18446744073709551616", "print mem :340282366920938463463374607431768211456", "print mem 0x100000000000000000 -> 0x1", "print mem 0b11111111111111111111111111111111111111111111111111111111111111111 : 0", "print mem 5 -> 99999999999999999999999999"]);
     let prints = prop_oneof![
         Just((PrintStmt::Reg, "print reg".to_string())),
         Just((PrintStmt::Flags, "PRINT FLAGS".to_string())),
